@@ -5,11 +5,12 @@
     and the client receives every backend byte unchanged."
    Only statements and `exact`; the proofs are in Proofs/C31.v.  All statements are about
    Model/LiteForward.v: impl_flow is the transcription of the code (ReplaceAll included), spec_flow
-   differs only in the virtual-host rewrite (host part only).
+   uses the same host-part-only virtual-host rewrite (they coincide since fix d2ccd45; the pre-fix
+   ReplaceAll variant survives as old_impl_mvh in clearly labelled historical theorems).
 
    Reading guide:  frame p = canonical VarInt length ++ p;  classify/lite_flow take the WHOLE client
    byte stream; frame_ok p = 0 < |p| <= 2097151; is_forward_state n = n is 2 (login) or 3 (transfer);
-   star_route_matches = the "*" route matches the cleaned host (no newline in it). *)
+   the "*" route matches every host (since fix 0f43e55 also one containing a line feed). *)
 From Coq Require Import List Arith NArith Bool.
 From Verif Require Import Base.Hex Base.VarInt Model.LiteForward Proofs.C31.
 Import ListNotations.
@@ -21,8 +22,7 @@ Open Scope N_scope.
    [extra] included) and every tail [rest]: if no rewrite fires, the backend stream is the PROXY prefix,
    then the client's frame byte for byte, then rest.  Stated for the code (impl_flow). *)
 Theorem C31_identity_when_no_rewrite : forall r ca now p h extra rest,
-  frame_ok p -> dec_handshake_payload p = Some (h, extra) ->
-  star_route_matches (hs_addr h) = true -> is_forward_state (hs_next h) = true ->
+  frame_ok p -> dec_handshake_payload p = Some (h, extra) -> is_forward_state (hs_next h) = true ->
   rewrite_flag impl_mvh r (hs_addr h) = false ->
   impl_flow r ca now (frame p ++ rest) = FlowForward (proxy_prefix r ca ++ frame p ++ rest).
 Proof. exact (identity_when_no_rewrite impl_mvh). Qed.
@@ -31,12 +31,11 @@ Print Assumptions C31_identity_when_no_rewrite.
 (* no route option => no rewrite and no header: the backend sees exactly the client's bytes *)
 Theorem C31_plain_route_is_transparent : forall r ca now p h extra rest,
   r_proxy r = false -> r_mvh r = false -> r_realip r = false ->
-  frame_ok p -> dec_handshake_payload p = Some (h, extra) ->
-  star_route_matches (hs_addr h) = true -> is_forward_state (hs_next h) = true ->
+  frame_ok p -> dec_handshake_payload p = Some (h, extra) -> is_forward_state (hs_next h) = true ->
   impl_flow r ca now (frame p ++ rest) = FlowForward (frame p ++ rest).
 Proof.
-  intros r ca now p h extra rest Hp Hm Hr Hf Hd Hs Hn.
-  unfold impl_flow. rewrite (identity_when_no_rewrite impl_mvh r ca now p h extra rest Hf Hd Hs Hn).
+  intros r ca now p h extra rest Hp Hm Hr Hf Hd Hn.
+  unfold impl_flow. rewrite (identity_when_no_rewrite impl_mvh r ca now p h extra rest Hf Hd Hn).
   - rewrite no_proxy_no_prefix by exact Hp. reflexivity.
   - apply no_options_no_rewrite; assumption.
 Qed.
@@ -47,8 +46,7 @@ Print Assumptions C31_plain_route_is_transparent.
    bytes — to the client's protocol, port and next state with ONLY the address replaced by a', followed
    by rest.  (Premises: the new address and payload stay within the decoder's limits.)  For the code. *)
 Theorem C31_rewrite_only_address : forall r ca now p h extra rest,
-  wf_bytes p -> frame_ok p -> dec_handshake_payload p = Some (h, extra) ->
-  star_route_matches (hs_addr h) = true -> is_forward_state (hs_next h) = true ->
+  wf_bytes p -> frame_ok p -> dec_handshake_payload p = Some (h, extra) -> is_forward_state (hs_next h) = true ->
   rewrite_flag impl_mvh r (hs_addr h) = true ->
   let a' := new_address impl_mvh r ca now (hs_addr h) in
   let p' := enc_handshake_payload (set_addr h a') in
@@ -61,8 +59,7 @@ Print Assumptions C31_rewrite_only_address.
 
 (* the same for the specified rewrite *)
 Theorem C31_rewrite_only_address_spec : forall r ca now p h extra rest,
-  wf_bytes p -> frame_ok p -> dec_handshake_payload p = Some (h, extra) ->
-  star_route_matches (hs_addr h) = true -> is_forward_state (hs_next h) = true ->
+  wf_bytes p -> frame_ok p -> dec_handshake_payload p = Some (h, extra) -> is_forward_state (hs_next h) = true ->
   rewrite_flag spec_mvh r (hs_addr h) = true ->
   let a' := new_address spec_mvh r ca now (hs_addr h) in
   let p' := enc_handshake_payload (set_addr h a') in
@@ -94,21 +91,28 @@ Theorem C31_spec_rewrites_host_part_only : forall backend addr,
 Proof. exact spec_mvh_host_part_only. Qed.
 Print Assumptions C31_spec_rewrites_host_part_only.
 
-(* Finding C31-1: the code's rewrite (strings.ReplaceAll) is NOT the host-part rewrite … *)
-Theorem C31_impl_rewrite_refuted :
-  impl_mvh b127 fml <> spec_mvh b127 fml /\
-  impl_mvh b127 [46] <> spec_mvh b127 [46] /\
-  impl_mvh b127 (a_com ++ [0] ++ a_com ++ [0]) <> spec_mvh b127 (a_com ++ [0] ++ a_com ++ [0]).
-Proof. exact impl_mvh_refuted. Qed.
-Print Assumptions C31_impl_rewrite_refuted.
+(* The code as it is now (strings.Replace(…, 1), fix d2ccd45) performs exactly the specified rewrite:
+   the whole flow of the code equals the specified flow on every input. *)
+Theorem C31_impl_eq_spec : forall r ca now cs, impl_flow r ca now cs = spec_flow r ca now cs.
+Proof. exact impl_flow_eq_spec. Qed.
+Print Assumptions C31_impl_eq_spec.
 
-(* … but only on the trigger class (cleaned host empty, or its text occurring again behind the host
-   part): everywhere else the code's backend stream equals the specified one. *)
-Theorem C31_impl_eq_spec_off_trigger : forall r ca now p h rest,
+(* HISTORICAL — facts about the PRE-FIX code (strings.ReplaceAll, finding C31-1, fixed):
+   it was not the host-part rewrite … *)
+Theorem C31_prefix_code_rewrite_refuted :
+  old_impl_mvh b127 fml <> spec_mvh b127 fml /\
+  old_impl_mvh b127 [46] <> spec_mvh b127 [46] /\
+  old_impl_mvh b127 (a_com ++ [0] ++ a_com ++ [0]) <> spec_mvh b127 (a_com ++ [0] ++ a_com ++ [0]).
+Proof. exact old_impl_mvh_refuted. Qed.
+Print Assumptions C31_prefix_code_rewrite_refuted.
+
+(* … but differed from it only on the trigger class (cleaned host empty, or its text occurring again
+   behind the host part). *)
+Theorem C31_prefix_code_eq_spec_off_trigger : forall r ca now p h rest,
   r_mvh r && mvh_trigger (r_backend_host r) (hs_addr h) = false ->
-  lite_backend_stream impl_mvh r ca now p h rest = lite_backend_stream spec_mvh r ca now p h rest.
-Proof. exact impl_flow_eq_spec_off_trigger. Qed.
-Print Assumptions C31_impl_eq_spec_off_trigger.
+  lite_backend_stream old_impl_mvh r ca now p h rest = lite_backend_stream spec_mvh r ca now p h rest.
+Proof. exact old_impl_flow_eq_spec_off_trigger. Qed.
+Print Assumptions C31_prefix_code_eq_spec_off_trigger.
 
 (* Clause "then every further client byte unchanged": however the client's stream frame p ++ rest is
    cut into reads (chunks), consuming the frame through the bufio reader leaves some buffered bytes and
@@ -159,8 +163,7 @@ Print Assumptions C31_failover_status_rewrites_once.
 (* Status pings use the same dialRoute: header, handshake (re-encoded when a rewrite fires or the ping
    cache is on), then the client's status request frame. *)
 Theorem C31_status_ping_stream : forall mvh r ca now p h extra q rest0 rest,
-  frame_ok p -> frame_ok q -> dec_handshake_payload p = Some (h, extra) ->
-  star_route_matches (hs_addr h) = true -> hs_next h = 1 -> is_status_request q = true ->
+  frame_ok p -> frame_ok q -> dec_handshake_payload p = Some (h, extra) -> hs_next h = 1 -> is_status_request q = true ->
   rest0 = frame q ++ rest ->
   lite_flow mvh r ca now (frame p ++ rest0) =
   FlowStatus (proxy_prefix r ca ++ handshake_frame mvh r ca now (r_cache r) p h ++ frame q).
@@ -179,7 +182,7 @@ Definition r_mvh_shield : route := mkRoute true true true false b127 ex_backend 
 
 Example C31_nonvacuous_identity :
   frame_ok ex_p /\ dec_handshake_payload ex_p = Some (ex_hs, [7; 7]) /\
-  star_route_matches (hs_addr ex_hs) = true /\ is_forward_state (hs_next ex_hs) = true /\
+  is_forward_state (hs_next ex_hs) = true /\
   rewrite_flag impl_mvh r_plain (hs_addr ex_hs) = false /\
   proxy_prefix r_plain ex_client <> [].
 Proof. repeat split; try (vm_compute; congruence); vm_compute; discriminate. Qed.
